@@ -121,19 +121,19 @@ UNDECIDED = {
     ],
     'C02': ["precedence is decided as maximal munch per tier plus the tier call census (each tier parses its operands with the next tighter tier); left-to-right grouping is decided as the fold order of each tier over uninterpreted operator functions; value-level agreement with a reference parser for whole expressions is not decided (CBMC cannot execute a 5-token expression through Interpreter)", "ABS / INT (closures in evaluate_function_call), ^ values (powf), PRINT number formatting (f64 Display): undecided", "* and / values beyond the stated small-integer domain: the SAT back end does not decide two 64-bit float multiplier circuits in budget"],
     'C01': ["panic-freedom is decided for the statement and expression evaluators (units statements, expressions; PRINT and user-defined function calls included), the command words and the edit path (unit interp_api), relative to the assumed leaf contracts end_loop (f64 addition total), next_data_element (closure) and the links through borrowing temporaries; for the tokenizer it is decided for the driver, the punctuation / blank / identifier matchers; string-literal, numeral, REM, DATA matchers are undecided; the DATA item parser is proved panic-free (unit data_parser) relative to total String / char primitives", "native stack exhaustion by nested parentheses: no stack model in either tool", "get_line_with_pointer_caret (fmt): undecided"],
-    'C03': ["statement dispatch as a whole, the IF false-branch scan's choice of clause, FOR/NEXT arithmetic in doubles (end_loop), DIM/array statements: undecided; decided pieces of the anchored mechanisms only - this is not a differential check against a reference interpreter", "IF/ELSE interplay: decided for GOSUB (a GOSUB directly followed by ELSE does not return in front of it); a FOR in a THEN clause that has an ELSE is not covered"],
+    'C03': ["statement dispatch as a whole, FOR/NEXT arithmetic in doubles (end_loop), DIM/array statements: undecided; decided pieces of the anchored mechanisms only - this is not a differential check against a reference interpreter", "IF/ELSE interplay: decided for GOSUB (a GOSUB directly followed by ELSE does not return in front of it); a FOR in a THEN clause that has an ELSE is not covered"],
     'C05': ["SourceFileAnalyzer::run / analyze_lines / populate_symbol_access_warnings are proved (after normalisations N9, N10) to keep every stored line mapped to the file line that defined it, which makes the `unwrap()` and the `panic!` of the mapping step unreachable; the whole statement and expression analyzer (statement_analyzer.rs, expression_analyzer.rs: 38 functions, unit analyzer_kinds) is proved to keep the stored lines, keep the cursor inside its stored line and record only token positions of stored lines. ASSUMED: the links through the two borrowing temporaries; what an analysis ERROR carries (not the DATA-coercion kind; an explicit position is a token position) - Verus does not model the error conversion done by the `?` operator, so errors that went through `check_number()?` are opaque; the tokenizer as the analyzer calls it (one byte range per token); the symbol table (HashMap entry API) records the position it is given and every warning names a recorded position", "SourceFileAnalyzer::analyze (split / map / collect), one token list per file line, and that the per-line lists carry the tokenizer's ranges: not stated", "that registered token ranges lie within the line on char boundaries is C13's business (partly decided there)"],
     'C13': ["the complex matchers (keywords via chomp_any_keyword, string literals, numerals, REM, DATA, identifiers) enter as ASSUMED contracts (decline without moving / consume a non-empty in-line stretch / fail without moving with an in-line position); chomp_keyword and chomp_number are checked against them by Kani for bounded input lengths (quick tier), chomp_string and chomp_remark in the thorough tier (ASCII, <= 6 bytes); the DATA matcher not at all", "character boundaries, ranges ENDING on a non-blank byte for every token kind, REM/DATA extending to the end of their text, and the re-tokenization clause (tokenizing the text of a range yields that one token) are undecided", "remaining_tokens / remaining_tokens_and_ranges (for-loops over `&mut self` as an iterator) are outside Verus; the ordering lemma is stated for two consecutive next() calls"],
     'C12': ["identifier scanning with keyword lookahead, numerals, the DATA branch of the tokenizer (String::from_utf8 of the rest of the line) and the composition in Tokenizer::next: undecided", "DATA items: decided for whitespace in front of and behind items relative to the assumed meaning of str::trim / str::parse; a parser change that uses a std method without a specification here (e.g. trim_matches with a pattern) is undecided, not detected"],
     'C06': ["statement-level agreement (assignment / FOR / NEXT / READ kind checks in statement_analyzer.rs vs statement.rs) and the converse direction need both evaluators executed: undecided", "operand parsing below the unary tier (terms, calls, array subscripts) is proved to only move the cursor forward on its line; the kinds it returns for terms are not specified", "termination of the tier loops is not claimed (exec_allows_no_decreases_clause)"],
-    'C08': ["that a REJECTED reply asks again at the very same INPUT statement (and not at a later INPUT of the line) needs a token-level specification of what an lvalue may contain (no INPUT token): not stated - a change that rewinds from further down the line is not reported", "THEN/ELSE interplay: decided as `a resumed INPUT is not left in front of an ELSE` (an ELSE reached as a statement stays UNEXPECTED TOKEN, as the suite requires for multi-statement THEN clauses)", "EXTRA IGNORED / REENTER records are appended by evaluate_input_statement (proved to keep the state well formed) but their exact conditions are not specified here", "reply parsing (parse_data_until_colon, the DATA item parser) is proved never to return an empty list and never to claim more bytes than the text has (unit data_parser); which items it returns is an uninterpreted function of the text"],
+    'C08': ["that a REJECTED reply asks again at the very same INPUT statement (and not at a later INPUT of the line) needs a token-level specification of what an lvalue may contain (no INPUT token): not stated - a change that rewinds from further down the line is not reported", "THEN/ELSE interplay: decided as `a resumed INPUT is not left in front of an ELSE` (an ELSE reached as a statement stays UNEXPECTED TOKEN, as the suite requires for multi-statement THEN clauses)", "EXTRA IGNORED: decided (appended exactly when the accepted reply held more than one item or text behind the items); REENTER: decided for the rejected reply", "reply parsing (parse_data_until_colon, the DATA item parser): never an empty list, never more bytes than the text has, and the items are those of the spec machine (quoted reply = one item verbatim; reply without separators = its trimmed text) relative to the assumed meaning of str::trim and an uninterpreted str::parse::<f64> - WHICH texts are numbers is not decided"],
     'C19': ["the page script (abasic-web/ts/main.ts) is TypeScript: its protocol is an assumption, transliterated in L_page_protocol; the start-up loader (start_evaluating per line with no error check in between) violates the adapter's precondition when a line fails - outside this check's reach", "the core side (start_evaluating / continue_evaluating / command words) is proved in unit interp_api and enters the adapter unit as stubs with the same contract text", "output record text (Display) and error text + caret: fmt, undecided"],
     'C07': ["expression evaluation (user-defined function calls included) is proved to hand the call stack back as it found it, on success and on failure (unit expressions, after normalisation N9 of the argument loop's `.enumerate()`); the statement evaluator sees the expression evaluator through the temporary-borrow link (assumed), which repeats this clause", "transparency itself (same output / input requests / outcome as the uninterrupted run) is concluded from the per-call facts - break records the location and keeps stack, loops, DATA cursor, functions; CONT restores exactly that; idle transitions keep pending reply and output - not proved as a statement about two runs", "that the host break reaches Program::break_at_current_location is proved for Interpreter::break_at_current_location; that STOP does is part of the verified dispatch in evaluate_statement"],
     'C09': ["the expression evaluator is proved to only move the cursor forward on its line (unit expressions) and enters statements through the temporary-borrow link; user-defined function calls inside expressions are outside the per-call work bound, as the property itself allows", "READ's loop over its variable list and PRINT's loop are not given a termination measure (partial correctness)"],
     'C10': ["the RUN arm of Interpreter::maybe_process_command is proved (for every stored program) to hand its first statement a state with no pending reply, no variables, no arrays, no breakpoint / frames / loops / functions / DATA cursor and the stored lines untouched; that the derived Default of Variables / Arrays is the empty map is assumed; what the run then does is the business of the other properties (this is not a comparison of two runs)", "Kani additionally executes the RUN arm for an empty stored program (bounded)"],
     'C11': ["end_loop returning NEXT WITHOUT FOR on a missing loop; next_data_element rebuilding the cursor (closure) - read, not proved"],
     'C16': ["end_loop re-push (f64 arithmetic) - read, not proved", "ValueArray / DimArray internals enter the Arrays wrapper as assumed contracts, themselves checked by Kani (bounded)"],
-    'C17': ["the relational claim (identical output/inputs/errors/final state in all four configurations) is concluded from three facts, not proved as a 2-safety property: the switches are read at exactly the censused sites, each site only appends Warning / Trace records, and no statement or expression writes a switch", "that the trace records name exactly the lines execution passes through, and that a warning is issued exactly for never-assigned variables / missing arrays, are not decided (the guard conditions are read, not specified)", "PRINT, user-defined function calls and the command words are proved not to write the switches (only TRACE / NOTRACE do, and they do nothing else)"],
+    'C17': ["the relational claim (identical output/inputs/errors/final state in all four configurations) is concluded from three facts, not proved as a 2-safety property: the switches are read at exactly the censused sites, each site only appends Warning / Trace records, and no statement or expression writes a switch", "a warning is issued exactly for a never-assigned variable / a missing array: decided per call (exact record counts of evaluate_expression_term and maybe_log_warning_about_undeclared_array_use); with tracing on a statement of a numbered line first appends the trace record naming its line, with tracing off none is appended: decided per statement; that the SEQUENCE of trace records equals the sequence of lines passed through is concluded from these per-statement facts, not proved over runs", "PRINT, user-defined function calls and the command words are proved not to write the switches (only TRACE / NOTRACE do, and they do nothing else)"],
     'C15': [
         "first half (a loaded file lists and runs like the same lines typed in): decided as `the program SourceFileAnalyzer::run / analyze_lines stores is the fold, in file order, of: a numbered line whose text tokenizes to at least one token is stored under its number (replacing an earlier definition); any other line stores nothing` - stated with the same two functions of a line's text (parse_line_number, tokenize from the end of the number) that the prompt path's contract uses (unit interp_api: evaluate_impl stores apply_edit(lines, n, tokens)), so for files whose lines are all numbered, non-empty and tokenizable both paths store the same map. ASSUMED: the analyzer's tokenizer entry point (remaining_tokens_and_ranges) yields the same tokens as the prompt's (remaining_tokens); that the two units' uninterpreted functions are the same functions rests on both calling the same real parse_line_number / Tokenizer. That a numbered line is never taken for a command word at the prompt is not proved. Listing / running the two equal stores identically is the business of C04 / C03",
         "second half: decided as a per-function invariant (the switches of the interpreter in use equal the command-line options after new, load_source_file, show_interpreter_output, break_interpreter, show_error), not as an equality of two process transcripts; StdioInterpreter::run / run_impl (rustyline, ctrlc, channels) are outside Verus - a syntactic census pins the only other place the interpreter is replaced (NEW: args.create_interpreter())",
